@@ -23,6 +23,9 @@ KNOWN_FILE = os.path.join(VERIF, "KNOWN_FINDINGS.txt")
 OUT = os.environ.get("VERIF_OUT") or VERIF
 
 
+AFTER_FORK: list = []  # callables run in a forked shard worker before it starts (reset per-process caches)
+
+
 class HarnessError(Exception):
     """A defect of the harness itself (exit code 2, never a VIOLATION)."""
 
@@ -468,6 +471,8 @@ def _shard_entry(args: Tuple[Any, ...]) -> Dict[str, Any]:
         from harness import gateways
 
         gateways._LOOP = None  # the parent's loop has executor threads that do not exist after fork
+        for hook in AFTER_FORK:
+            hook()
         rec = Recorder(pid, tier, seed, level)
         try:
             fn(rec, k, n, *extra)
